@@ -1,6 +1,6 @@
 // C19 oc_xv: ObjectCache under the controlled multi-vCPU scheduler.
 // ops per photon thread (k = key digit):  a<k> acquire (ctor succeeds)   s<k> acquire with a slow ctor (yields inside)
-//   f<k> acquire with a failing ctor   r<k> release   R<k> release(recycle=true, destroy=true)   M<k> release(recycle=true, destroy=false)
+//   f<k> acquire with a failing ctor   F<k> acquire with a slow failing ctor (yields inside, then fails)   r<k> release   R<k> release(recycle=true, destroy=true)   M<k> release(recycle=true, destroy=false)
 //   e call expire() (what the cache's timer thread does)   t sleep 150us (> lifespan)   y yield
 #define protected public
 #define private public
@@ -38,9 +38,9 @@ struct Obj {
 static Obj* make(int k, int mode) {       // mode 0 ok, 1 slow, 2 fail
     if (++G->ctor_running[k] != 1) pmc_violation("concurrent-construction", "constructor for key %d running %d times at once", k, G->ctor_running[k]);
     G->ctor_calls[k]++;
-    if (mode == 1) { mv_yield("in ctor"); thread_yield(); mv_yield("in ctor 2"); }
+    if (mode == 1 || mode == 3) { mv_yield("in ctor"); thread_yield(); mv_yield("in ctor 2"); }
     Obj* o = nullptr;
-    if (mode != 2) { o = new Obj(k); G->live[k] = o; }
+    if (mode < 2) { o = new Obj(k); G->live[k] = o; }
     G->ctor_running[k]--;
     return o;
 }
@@ -54,15 +54,15 @@ static void body(mvprog::PT& p) {
         if (op == 't') { thread_usleep(150); continue; }
         if (op == 'e') { G->oc->expire(); continue; }
         int k = p.ops[++i] - '0';
-        if (op == 'a' || op == 's' || op == 'f') {
-            int mode = op == 'a' ? 0 : op == 's' ? 1 : 2;
+        if (op == 'a' || op == 's' || op == 'f' || op == 'F') {
+            int mode = op == 'a' ? 0 : op == 's' ? 1 : op == 'f' ? 2 : 3;
             int calls0 = G->ctor_calls[k];
             Obj* o = G->oc->acquire(k, [&] { return make(k, mode); });
             if (o) {
                 if (o->magic != 0x600d) pmc_violation("acquired-dead-object", "acquire(%d) returned an object that was already destroyed", k);
                 if (G->live[k] != o) pmc_violation("two-live-objects", "acquire(%d) returned %p but the live object of the key is %p", k, (void*)o, (void*)G->live[k]);
                 G->borrowed[k]++; mine[k] = o;
-            } else if (mode != 2 && G->ctor_calls[k] == calls0) {
+            } else if (mode < 2 && G->ctor_calls[k] == calls0) {
                 // null without having run our (succeeding) constructor: only legal right after somebody else's failure (cooldown 0 => retried) -- never here
                 pmc_violation("acquire-null-without-failure", "acquire(%d) with a succeeding constructor returned null and did not run it", k);
             }
@@ -118,6 +118,10 @@ static const PmcConfig CFG[] = {
     {"a0R0|a0r0a0r0",      3, {1,2}, {0,0}, {0,0}, {0,0}, "recycler racing with a new acquirer"},
     {"a0M0|a0r0",          3, {1,2}, {0,0}, {0,0}, {0,0}, "recycle without destroy hands the object over"},
     {"a0r0a1r1|a1r1a0r0",  3, {1,2}, {0,0}, {0,0}, {0,0}, "two keys"},
+    {"F0r0,a0ter0",        3, {0,0}, {0,0}, {0,0}, {0,0}, "one vCPU: slow failing constructor with a waiter queued; the waiter succeeds and holds past the lifespan, then expire()"},
+    {"pF0r0,pa0tepr0,pa0r0", 3, {0,0}, {0,0}, {0,0}, {0,0}, "... every arrival order, plus a third acquirer"},
+    {"F0r0|a0ter0",        3, {1,2}, {0,0}, {0,0}, {0,0}, "failing constructor on one vCPU, successful waiter holding past the lifespan on another"},
+    {"f0r0|a0ter0|a0r0",   2, {1,2}, {0,0}, {0,0}, {0,0}, ""},
     {"a0r0,a0R0|a0r0te",   2, {1,2}, {0,0}, {0,0}, {0,0}, ""},
     {"a0r0|a0r0|a0R0",     2, {1,2}, {0,0}, {0,0}, {0,0}, "three vCPUs"},
     {"a0r0,s0r0,a0R0",     3, {0,0}, {0,0}, {0,0}, {0,0}, "one vCPU"},
